@@ -21,6 +21,8 @@ pub struct ConnSpec {
     pub after_ticks: usize,
     /// scripted timing: the peer closes only once this many timeout answers have passed
     pub close_after_ticks: usize,
+    /// the peer does not half-close but disappears (both directions): later server writes fail
+    pub resets: bool,
 }
 
 #[derive(Clone, Debug, PartialEq)]
@@ -46,6 +48,8 @@ pub struct ListenSpec {
     pub prop: String,
     /// scripted timing: the flag may be set once this many timeout answers have passed (None: never set)
     pub flag_after_ticks: Option<usize>,
+    /// the upgraded handler ends the session (returns an error) when its input ends
+    pub strict_upgrade: bool,
 }
 
 #[derive(Default, Debug)]
@@ -169,6 +173,11 @@ impl World for ListenWorld {
                 v.push(EnvAct { label: format!("close{}", c), id: 300 + c });
             }
         }
+        for c in 0..self.connected {
+            if self.delivered[c] == self.spec.conns[c].chunks.len() && self.spec.conns[c].resets && !st.pipes[c].peer_gone {
+                v.push(EnvAct { label: format!("reset{}", c), id: 600 + c });
+            }
+        }
         if self.spec.flag && !self.flag_set && self.spec.flag_after_ticks.map(|t| self.ticks_total >= t).unwrap_or(false) {
             v.push(EnvAct { label: "setflag".into(), id: 400 });
         }
@@ -206,6 +215,13 @@ impl World for ListenWorld {
                 st.pipes[c].client_closed = true;
                 self.closed[c] = true;
                 self.progress(format!("close{}", c));
+                None
+            }
+            600..=699 => {
+                let c = act.id - 600;
+                st.pipes[c].peer_gone = true;
+                self.closed[c] = true;
+                self.progress(format!("reset{}", c));
                 None
             }
             400 => {
@@ -381,7 +397,7 @@ pub fn build_listen(spec: ListenSpec) -> impl Fn(&Sched) -> Scenario {
         let addr = format!("unix:{}", path.display());
         let flag = Arc::new(AtomicBool::new(false));
         let obs = Arc::new(Mutex::new(LObs::default()));
-        let (svc, tslog) = new_ts();
+        let (svc, tslog) = new_ts_with(spec.strict_upgrade);
         let cfg = ListenConfig {
             initial_worker_threads: spec.initial,
             max_worker_threads: spec.max,
